@@ -224,3 +224,150 @@ def stage_lock_tsan(stage, prop, tier, seed, workdir, build, env, log):
         reports.append(rep)
     return {"reports": reports, "inconclusive": inconclusive,
             "info": {"stage": stage["name"], "tsan_build_and_run_s": round(time.time() - t0, 1)}}
+
+
+def _collect_vh(procs, name, timeout):
+    reports, inconclusive, texts = [], [], []
+    for i, p, out in procs:
+        try:
+            stdout, _ = p.communicate(timeout=timeout)
+        except subprocess.TimeoutExpired:
+            p.kill()
+            stdout, _ = p.communicate()
+            inconclusive.append(f"{name} shard {i}: watchdog fired")
+            continue
+        text = stdout if isinstance(stdout, str) else stdout.decode("utf-8", "replace")
+        texts.append(text)
+        if os.path.exists(out):
+            with open(out) as f:
+                rep = json.load(f)
+            rep["_hashes"] = out + ".hashes"
+            reports.append(rep)
+        elif p.returncode != 0:
+            inconclusive.append(f"{name} shard {i}: exit {p.returncode}: {text[-300:]}")
+    return reports, inconclusive, texts
+
+
+def stage_vh_tsan(stage, prop, tier, seed, workdir, build, env, log):
+    """The engine's own workload re-run in a ThreadSanitizer build (-Zbuild-std): data races under real schedules."""
+    harness = os.path.join(os.path.dirname(os.path.dirname(os.path.abspath(__file__))), "harness")
+    verif = os.path.dirname(harness)
+    tdir = os.path.join(verif, "target-tsan")
+    e = dict(env)
+    e["RUSTFLAGS"] = "-Zsanitizer=thread --cfg essential_base_verif"
+    t0 = time.time()
+    b = subprocess.run(["cargo", "+nightly", "build", "--offline", "-Zbuild-std", "--target", "x86_64-unknown-linux-gnu", "--release", "-p", "vh",
+                        "--target-dir", tdir], cwd=harness, env=e, stdout=subprocess.PIPE, stderr=subprocess.STDOUT, text=True)
+    if b.returncode != 0:
+        return {"inconclusive": [f"tsan build failed: {b.stdout[-600:]}"]}
+    binary = os.path.join(tdir, "x86_64-unknown-linux-gnu", "release", "vh")
+    n = stage.get("shards", 4)
+    procs = []
+    for i in range(n):
+        out = os.path.join(workdir, f"{stage['name']}-{i}.json")
+        e2 = dict(env)
+        e2["TSAN_OPTIONS"] = "halt_on_error=0 report_signal_unsafe=0 exitcode=0"
+        e2.update(stage.get("env", {}))
+        cmd = [binary, stage["engine"], "--prop", prop, "--tier", tier, "--seed", str(seed), "--shard", str(i), "--nshards", str(n),
+               "--out", out, "--scale", str(stage.get("scale", 0.05)), "--regime", "tsan"]
+        procs.append((i, subprocess.Popen(cmd, cwd=verif, env=e2, stdout=subprocess.PIPE, stderr=subprocess.STDOUT, text=True), out))
+    reports, inconclusive, texts = _collect_vh(procs, stage["name"], stage.get("timeout", 3000))
+    n_reports, repo_reports, first = 0, 0, ""
+    for text in texts:
+        for block in text.split("=================="):
+            if "WARNING: ThreadSanitizer" in block:
+                n_reports += 1
+                if "/crates/" in block and "/repo" in block or "essential_" in block:
+                    repo_reports += 1
+                    first = first or block.strip()[:700]
+    extra = {"engine": "tsan", "evaluations": 0, "counters": {"tsan.reports": n_reports, "tsan.reports_in_repo_code": repo_reports}, "maxima": {}, "sets": {},
+             "samples": [], "inconclusive": [], "violations": [], "wall_s": 0.0}
+    if repo_reports:
+        extra["violations"].append({"property": prop, "kind": "tsan-report", "detail": first, "case": {"engine": "tsan", "stage": stage["name"]}})
+    elif n_reports:
+        inconclusive.append(f"{n_reports} ThreadSanitizer report(s) without a frame in the repository's code")
+    reports.append(extra)
+    return {"reports": reports, "inconclusive": inconclusive,
+            "info": {"stage": stage["name"], "regime": "tsan (-Zbuild-std)", "shards": n, "tsan_reports": n_reports,
+                     "evaluations": sum(r["evaluations"] for r in reports), "wall_s": round(time.time() - t0, 1)}}
+
+
+def stage_vh_miri(stage, prop, tier, seed, workdir, build, env, log):
+    """A handful of tiny cases of the engine's workload interpreted by Miri (tree borrows): UB, data races and deadlocks
+    in whatever the workload reaches, including rayon's scheduling. ~45 s per case, so only a few."""
+    harness = os.path.join(os.path.dirname(os.path.dirname(os.path.abspath(__file__))), "harness")
+    verif = os.path.dirname(harness)
+    tdir = os.path.join(verif, "target-miri")
+    e = dict(env)
+    e["RUSTFLAGS"] = "--cfg essential_base_verif"
+    e["MIRIFLAGS"] = "-Zmiri-tree-borrows -Zmiri-ignore-leaks -Zmiri-permissive-provenance -Zmiri-disable-isolation"
+    e["RAYON_NUM_THREADS"] = "3"
+    t0 = time.time()
+    n = stage.get("shards", 8)
+    procs = []
+    # the first shard builds; the others start once the binary exists (cargo serialises on the target dir anyway)
+    for i in range(n):
+        out = os.path.join(workdir, f"{stage['name']}-{i}.json")
+        cmd = ["cargo", "+nightly", "miri", "run", "--offline", "-p", "vh", "--target-dir", tdir, "--", stage["engine"], "--prop", prop, "--tier", "quick",
+               "--seed", str(seed), "--shard", str(i), "--nshards", str(n), "--out", out, "--scale", str(stage.get("scale", 0.001)), "--regime", "miri"]
+        procs.append((i, subprocess.Popen(cmd, cwd=harness, env=e, stdout=subprocess.PIPE, stderr=subprocess.STDOUT, text=True), out))
+    reports, inconclusive, texts = _collect_vh(procs, stage["name"], stage.get("timeout", 3300))
+    bad = [t for t in texts if "Undefined Behavior" in t or "data race" in t.lower() or "deadlock" in t.lower()]
+    extra = {"engine": "miri", "evaluations": 0, "counters": {"miri.shards_completed": len(reports), "miri.reports": len(bad)}, "maxima": {}, "sets": {},
+             "samples": [], "inconclusive": [], "violations": [], "wall_s": 0.0}
+    for t in bad:
+        i = max(t.find("Undefined Behavior"), 0)
+        block = t[i:i + 900]
+        if "/crates/" in block or "essential_" in block:
+            extra["violations"].append({"property": prop, "kind": "miri-report", "detail": block, "case": {"engine": "miri", "stage": stage["name"]}})
+        else:
+            inconclusive.append("Miri report without a frame in the repository's code: " + block[:300])
+    reports.append(extra)
+    return {"reports": reports, "inconclusive": inconclusive,
+            "info": {"stage": stage["name"], "regime": "miri (tree borrows)", "shards": n,
+                     "evaluations": sum(r["evaluations"] for r in reports), "wall_s": round(time.time() - t0, 1)}}
+
+
+def stage_vh_valgrind(stage, prop, tier, seed, workdir, build, env, log):
+    """valgrind memcheck over the plain release binary: covers the C code of secp256k1 (not instrumented by rustc's
+    sanitizers) while hostile bytes reach it. Only invalid read/write/free and uninitialised-value errors count."""
+    binary, err = build("release")
+    if binary is None:
+        return {"inconclusive": [err]}
+    verif = os.path.dirname(os.path.dirname(os.path.abspath(__file__)))
+    n = stage.get("shards", 8)
+    t0 = time.time()
+    procs = []
+    for i in range(n):
+        out = os.path.join(workdir, f"{stage['name']}-{i}.json")
+        vlog = os.path.join(workdir, f"{stage['name']}-{i}.vg")
+        e2 = dict(env)
+        e2["RAYON_NUM_THREADS"] = "2"
+        cmd = ["valgrind", "--tool=memcheck", "--leak-check=no", "--error-exitcode=0", f"--log-file={vlog}", binary, stage["engine"], "--prop", prop,
+               "--tier", "quick", "--seed", str(seed), "--shard", str(i), "--nshards", str(n), "--out", out, "--scale", str(stage.get("scale", 0.02)),
+               "--regime", "valgrind-memcheck"]
+        procs.append((i, subprocess.Popen(cmd, cwd=verif, env=e2, stdout=subprocess.PIPE, stderr=subprocess.STDOUT, text=True), out, vlog))
+    reports, inconclusive, _ = _collect_vh([(i, p, o) for i, p, o, _ in procs], stage["name"], stage.get("timeout", 3000))
+    errors, first = 0, ""
+    for _, _, _, vlog in procs:
+        try:
+            text = open(vlog).read()
+        except OSError:
+            continue
+        for line in text.splitlines():
+            if "ERROR SUMMARY:" in line:
+                try:
+                    errors += int(line.split("ERROR SUMMARY:")[1].split()[0])
+                except ValueError:
+                    pass
+        if not first and ("Invalid read" in text or "Invalid write" in text or "Invalid free" in text or "uninitialised" in text):
+            k = min(x for x in (text.find("Invalid"), text.find("uninitialised")) if x >= 0)
+            first = text[k:k + 900]
+    extra = {"engine": "valgrind", "evaluations": 0, "counters": {"memcheck.errors": errors}, "maxima": {}, "sets": {}, "samples": [], "inconclusive": [],
+             "violations": [], "wall_s": 0.0}
+    if errors:
+        extra["violations"].append({"property": prop, "kind": "memcheck-error", "detail": first or f"{errors} memcheck errors", "case": {"engine": "valgrind", "stage": stage["name"]}})
+    reports.append(extra)
+    return {"reports": reports, "inconclusive": inconclusive,
+            "info": {"stage": stage["name"], "regime": "valgrind memcheck on the release binary", "shards": n, "memcheck_errors": errors,
+                     "evaluations": sum(r["evaluations"] for r in reports), "wall_s": round(time.time() - t0, 1)}}
